@@ -39,8 +39,10 @@ pub enum Op {
     /// Addr::halt (consumes the slot), WeakAddr::try_halt
     Halt(H),
     Restart(H),
-    /// await the address in place (`(&mut addr).await`)
+    /// `addr.await` (consumes the handle)
     Await(H),
+    /// await the address in place (`(&mut addr).await`), keeping the handle
+    AwaitRef(H),
     Stopped(H),
     Running(H),
     /// clone the address, poll the clone once, drop the clone; result Bool(was ready)
@@ -228,6 +230,13 @@ async fn exec_op(h: &mut Handles, op: Op) -> Res {
             _ => EMPTY,
         },
         Op::Await(t) => match t {
+            H::Addr(i) => match h.addr.get_mut(i as usize).and_then(Option::take) {
+                Some(a) => r_unit(a.await),
+                None => EMPTY,
+            },
+            _ => EMPTY,
+        },
+        Op::AwaitRef(t) => match t {
             H::Addr(i) => match h.addr.get_mut(i as usize).and_then(Option::as_mut) {
                 Some(a) => r_unit(a.await),
                 None => EMPTY,
